@@ -210,14 +210,24 @@ func ValueKind(v any) (int, string) {
 
 var valueKindNames = [16]string{"null", "bool", "int64", "float64", "json.Number", "string", "array", "object", "date", "time", "timetz", "timestamp", "timestamptz", "", "", "other"}
 
+// NoSharedAtomics: while goroutines run concurrently under the race detector
+// the hooks must not touch shared atomics - every atomic read-modify-write on
+// a common address orders the goroutines (release/acquire) and hides the very
+// races the detector is there to find. Set before the goroutines start,
+// cleared after they have been joined; the hooks then use only the per-call
+// monitor.
+var NoSharedAtomics bool
+
 // RecordStates controls whether H1 events are tallied into the state matrix.
 var RecordStates = true
 
 // InstallHooks sets the exec hooks. Call once, before starting goroutines.
 func InstallHooks() {
 	exec.VerifOnStep = func(ctx context.Context, ev *exec.VerifStepEvent) {
-		GlobalSteps.Add(1)
-		if RecordStates {
+		if !NoSharedAtomics {
+			GlobalSteps.Add(1)
+		}
+		if RecordStates && !NoSharedAtomics {
 			nk, name := NodeKind(ev.Node)
 			vk, _ := ValueKind(ev.Value)
 			fl := 0
@@ -260,6 +270,12 @@ func InstallHooks() {
 		}
 	}
 	exec.VerifOnCall = func(ctx context.Context, end bool, _ exec.VerifState) {
+		if NoSharedAtomics {
+			if m := monOf(ctx); m != nil && !end {
+				m.Calls++
+			}
+			return
+		}
 		if end {
 			InFlight.Add(-1)
 			return
